@@ -117,6 +117,8 @@ def run(chk):
 
 def replay(chk, path):
     case = json.load(open(path))["payload"]
+    if vlib.replay_generic(chk, case):
+        chk.finish(rule="re-validation of one recorded trace / batch job")
     if "program" in case and "mutation" not in case:
         rows = vlib.replay(chk, case["curve"], [case["program"]], "replay")
         for row in rows:
